@@ -156,7 +156,7 @@ mkb_build(const struct mkb_in *in, struct expr **pl, struct expr **pr)
 	unsigned lbits, rbits;
 
 	__CPROVER_assume(in->enAb <= AT_ULLONG && in->enBb <= AT_ULLONG);
-	__CPROVER_assume(in->lts < TS_N && in->rts < TS_N && in->lbs < BS_N && in->rbs < BS_N && in->lq < 8 && in->rq < 8);
+	__CPROVER_assume(in->lts < TS_N && in->rts < TS_N && in->lbs < BS_N && in->rbs < BS_N && in->lq <= QUALMAX && in->rq <= QUALMAX);
 	__CPROVER_assume(in->lek < EK_N && in->rek < EK_N);
 	build_universe(in->signedchar, in->enAb, in->enBb);
 	g_lts = in->lts; g_lbs = in->lbs; g_lq = in->lq; g_lek = in->lek; g_lv = in->lv;
